@@ -28,6 +28,12 @@ struct Session {
 }
 
 fn session(reply_ack: bool) -> Session {
+    session2(reply_ack, reply_ack)
+}
+
+/// `reply_ack`: the proxy's setting (decides NEED_REPLY on its requests); `srv_reply_ack`: the
+/// frontend request server's own setting.
+fn session2(reply_ack: bool, srv_reply_ack: bool) -> Session {
     let (a, tap_b) = sys::pair();
     let proxy_fd = a.as_raw_fd();
     let proxy = Backend::from_stream(a);
@@ -36,7 +42,7 @@ fn session(reply_ack: bool) -> Session {
     proxy.set_reply_ack_flag(reply_ack);
     let h = Arc::new(Mutex::new(RecFrontend::default()));
     let mut srv = FrontendReqHandler::new(h.clone()).expect("FrontendReqHandler");
-    srv.set_reply_ack_flag(reply_ack);
+    srv.set_reply_ack_flag(srv_reply_ack);
     let tap_f = unsafe { libc::dup(srv.get_tx_raw_fd()) };
     Session { proxy, proxy_fd, tap_b, srv, tap_f, h, reply_ack }
 }
@@ -248,4 +254,19 @@ pub fn run(cfg: &Cfg) {
         }
         sys::close(s.tap_f);
     }
+    // the two ends disagree for a while (the server already has REPLY_ACK, the proxy not yet): a
+    // request without NEED_REPLY is never acknowledged
+    let mut s = session2(false, true);
+    let case = format!("rng:{}", rng.0);
+    for k in 0..cfg.pick(40, 400) {
+        idx += 1;
+        let op = c01::rand_beop(&mut rng, k % 5);
+        let out = if rng.chance(1, 2) { FeOut::Val(0) } else { rng.pick(&outs).clone() };
+        report::count("asymmetric_reply_ack", 1);
+        if !one(cfg, &mut s, &op, &out, idx, &case) {
+            sys::close(s.tap_f);
+            s = session2(false, true);
+        }
+    }
+    sys::close(s.tap_f);
 }
